@@ -212,7 +212,7 @@ func coordinator(c *Check, tier string) int {
 			defer wg.Done()
 			out := filepath.Join(tmp, fmt.Sprintf("w%d.json", k))
 			cmd := exec.Command(self, c.ID, tier, "--worker", fmt.Sprintf("%d/%d", k, shards), "--out", out)
-			cmd.Env = append(os.Environ(), "GOMAXPROCS=2", "GOMEMLIMIT=6GiB")
+			cmd.Env = append(os.Environ(), "GOMAXPROCS=1", "GOMEMLIMIT=6GiB")
 			cmd.Stderr = os.Stderr
 			cmd.Stdout = os.Stderr
 			if err := cmd.Run(); err != nil {
